@@ -365,6 +365,8 @@ class C19(QueryFamily):
             return gen_query.gen_case_forall_expr(rng, falsy_values=True)
         if r < 0.27:
             return gen_query.gen_case_membership_disjunction(rng, tier)
+        if r < 0.34:
+            return gen_query.gen_case_falsy_owner(rng, tier)
         nv = rng.choice([1, 2, 2])
         c = gen_query.gen_case(rng, nvars=nv, falsy=True, neg=rng.random() < 0.5, maxdepth=2, select=rng.choice(['all', 'some']), dom_max=4)
         # make falsy values dominant
